@@ -249,6 +249,12 @@ class MainTransformer(object):
                 "with '%s'" % (target.symbol,
                              target.shadows,
                              rename_to))
+        elif node.shadowed_by:
+            message.warn_node(node,
+                "Function '%s' is already shadowed by '%s', can't shadow "
+                "'%s'" % (node.symbol,
+                          node.shadowed_by,
+                          rename_to))
         else:
             target.shadowed_by = node.name
             node.shadows = target.name
